@@ -76,9 +76,16 @@ func errOf(outcome string) error {
 	return fakeStorageError{code: azblob.ServiceCodeType(outcome)}
 }
 
-type leaseLog struct{ w *bufio.Writer }
+type leaseLog struct {
+	w    *bufio.Writer
+	mute bool
+}
 
-func (l *leaseLog) f(format string, a ...interface{}) { fmt.Fprintf(l.w, format+"\n", a...) }
+func (l *leaseLog) f(format string, a ...interface{}) {
+	if !l.mute {
+		fmt.Fprintf(l.w, format+"\n", a...)
+	}
+}
 
 type mockContainer struct {
 	log     *leaseLog
@@ -135,10 +142,27 @@ type eventer2 struct {
 }
 
 // one case against one generation at the mock level
+// leaseCaseMock runs one call against in-package fakes.  prev >= 0 (kind "create" only): the same manager has
+// already served a CreatePartitions(prev) call whose uploads all failed; the call that is recorded must behave
+// exactly like a first call (the manager keeps no memory of what it created).
 func leaseCaseMock(log *leaseLog, gen int, kind string, n int, index int, outcomes []string) {
+	leaseCaseMockPrev(log, gen, kind, n, index, outcomes, -1)
+}
+
+func leaseCaseMockPrev(log *leaseLog, gen int, kind string, n int, index int, outcomes []string, prev int) {
 	log.f("case %d mock %s %d %d %s", gen, kind, n, index, strings.Join(outcomes, " "))
 	cont := &mockContainer{log: log, outcome: "ok"}
 	blob := &mockBlob{log: log, acquires: "ok"}
+	warm := func(call func()) {
+		if prev >= 0 && kind == "create" {
+			blob.uploads = []string{"ServerBusy"}
+			log.mute = true
+			call()
+			log.mute = false
+			blob.nUpload = 0
+			blob.uploads = outcomes
+		}
+	}
 	switch kind {
 	case "provision":
 		cont.outcome = outcomes[0]
@@ -156,6 +180,7 @@ func leaseCaseMock(log *leaseLog, gen int, kind string, n int, index int, outcom
 			err := m.Provision(ctx)
 			log.f("ret %d", b2i(err == nil))
 		case "create":
+			warm(func() { m.CreatePartitions(ctx, prev) })
 			err := m.CreatePartitions(ctx, n)
 			log.f("ret %d", b2i(err == nil))
 		case "lease":
@@ -172,6 +197,7 @@ func leaseCaseMock(log *leaseLog, gen int, kind string, n int, index int, outcom
 			err := m.Provision(ctx)
 			log.f("ret %d", b2i(err == nil))
 		case "create":
+			warm(func() { m.CreatePartitions(ctx, prev) })
 			m.CreatePartitions(ctx, n)
 			log.f("ret 1")
 		case "lease":
@@ -316,6 +342,17 @@ func RunLease(t *testing.T, seed int64, thorough bool, out io.Writer) {
 				}
 			}
 			leaseCaseMock(log, gen, "create", n, 0, outs)
+		}
+		// a second CreatePartitions on the same manager (re-provisioning after SetSharedCapacity, or a retry after a
+		// failure) behaves like the first: nothing is remembered from the earlier call
+		for _, prev := range []int{0, 1, 2, 3, 6} {
+			for _, n := range []int{1, 2, 3, 5, 8} {
+				outs := make([]string, n)
+				for j := range outs {
+					outs[j] = alpha[rng.Intn(len(alpha))]
+				}
+				leaseCaseMockPrev(log, gen, "create", n, 0, outs, prev)
+			}
 		}
 		// through the SDK client: names, headers, duration
 		for _, o := range []string{"ok", "LeaseAlreadyPresent", "BlobNotFound", "other"} {
